@@ -417,6 +417,7 @@ type Result struct {
 	Packages  int
 	Start     time.Time
 	Controls  []string
+	Quiet     bool
 }
 
 func (r *Result) Merge(c *Ctx) {
@@ -509,7 +510,9 @@ func (r *Result) Report(verifDir string, ff *FindingsFile, seed int) int {
 		b, _ := json.MarshalIndent(map[string]any{"property": r.Property, "kind": kind, "obligation": o, "rule_text": r.RuleDocs[o.Rule],
 			"how_to_replay": fmt.Sprintf("bin/gicheck -property %s -tier %s  (the obligation is re-derived from /repo's source; see pos and detail)", r.Property, r.Tier)}, "", " ")
 		os.WriteFile(path, b, 0o666)
-		fmt.Printf("%s: %s [%s] %s: %s\n", strings.ToUpper(kind), o.Pos, o.Key, o.Config, o.Detail)
+		if !r.Quiet {
+			fmt.Printf("%s: %s [%s] %s: %s\n", strings.ToUpper(kind), o.Pos, o.Key, o.Config, o.Detail)
+		}
 		fmt.Printf("VIOLATION property=%s replay=%s\n", r.Property, path)
 		exit = 1
 	}
